@@ -389,7 +389,7 @@ func checkC07(c *runCtx) {
 		"data writes and injections are deviations from the default session schedule; each execution carries at most two of them")
 	p := newVTPool()
 	defer p.close()
-	dl := c01deadline(c, 150, 1500)
+	dl := c01deadline(c, 240, 1500)
 	h2 := []string{"host", "host"}
 	dev := 2
 	if !c.quick() {
